@@ -18,7 +18,7 @@ import (
 
 // exported function -> (classification in the C20 path table, expected skeleton)
 var c20Class = map[string][2]string{
-	"File.CalcCellValue":           {"unmodelled: calculation engine (C08/C09)", ""},
+	"File.CalcCellValue":           {"RefOpts.optAccepts .calcCell (acceptance only: the evaluator is C08/C09)", ""},
 	"File.GetCellValue":            {"pathGetString", "getCellStringFunc"},
 	"File.GetCellType":             {"pathGetString", "getCellStringFunc"},
 	"File.SetCellValue":            {"pathPrepare (dispatches to the typed setters)", "setCellIntFunc setCellTimeFunc"},
@@ -35,7 +35,7 @@ var c20Class = map[string][2]string{
 	"File.GetCellRichText":         {"pathRichGet", "mergeCellsParser CellNameToCoordinates getCell"},
 	"File.SetCellRichText":         {"pathPrepare", "prepareCell"},
 	"File.SetSheetRow":             {"RefOpts.optAccepts .sheetRow2 (setSheetCells: direct decode of the start cell, then typed setters)", "setSheetCells"},
-	"File.SetSheetCol":             {"setSheetCells as SetSheetRow (skeleton pinned; not exercised)", "setSheetCells"},
+	"File.SetSheetCol":             {"RefOpts.optAccepts .sheetCol2 (setSheetCells)", "setSheetCells"},
 	"File.AddChart":                {"pathDirect (skeleton pinned; not exercised by the paths op)", "CellNameToCoordinates"},
 	"File.DeleteChart":             {"pathDirect (skeleton pinned; not exercised by the paths op)", "CellNameToCoordinates"},
 	"File.GetColVisible":           {"Ref.columnNameToNumber (codec theorems; skeleton pinned; API not exercised)", "ColumnNameToNumber"},
@@ -62,12 +62,12 @@ var c20Class = map[string][2]string{
 	"File.RemovePageBreak":         {"pathDirect (skeleton pinned; not exercised by the paths op)", "CellNameToCoordinates"},
 	"File.SetSheetDimension":       {"Ref.rangeRefToCoordinates (decoder theorems; skeleton pinned; API not exercised)", "CellNameToCoordinates rangeRefToCoordinates"},
 	"File.AddIgnoredErrors":        {"RefOpts.optAccepts .ignoredErrors: stored unvalidated (open finding)", ""},
-	"StreamWriter.SetRow":          {"unmodelled: stream writer (C11)", "CellNameToCoordinates CoordinatesToCellName"},
-	"StreamWriter.InsertPageBreak": {"unmodelled", ""},
-	"StreamWriter.MergeCell":       {"unmodelled: stream writer (C11)", "cellRefsToCoordinates"},
+	"StreamWriter.SetRow":          {"RefOpts.optAccepts .streamSetRow (direct decode)", "CellNameToCoordinates CoordinatesToCellName"},
+	"StreamWriter.InsertPageBreak": {"RefOpts.optAccepts .streamPageBreak (insertPageBreak)", "insertPageBreak"},
+	"StreamWriter.MergeCell":       {"direct decode of both arguments (cellRefsToCoordinates); swmerge op", "cellRefsToCoordinates"},
 	"File.GetCellStyle":            {"pathDirect", "CellNameToCoordinates getCell"},
 	"File.SetCellStyle":            {"pathDirect", "CellNameToCoordinates CellNameToCoordinates"},
-	"File.SetConditionalFormat":    {"unmodelled", ""},
+	"File.SetConditionalFormat":    {"RefCF.cfPrepare (prepareConditionalFormatRange over parseRef; four open findings)", "prepareConditionalFormatRange"},
 	"File.UnsetConditionalFormat":  {"RefOpts.cfUnsetFinds: raw string comparison with the stored reference (open finding)", ""},
 	"File.AutoFilter":              {"Ref.rangeRefToCoordinates (decoder theorems; skeleton pinned; API not exercised)", "rangeRefToCoordinates"},
 	"File.DeleteComment":           {"pathCommentDel", "CellNameToCoordinates CoordinatesToCellName deleteFormControl"},
@@ -79,7 +79,7 @@ var c20Callees = map[string]bool{
 	"getCellStringFunc": true, "CellNameToCoordinates": true, "CoordinatesToCellName": true,
 	"rangeRefToCoordinates": true, "cellRefsToCoordinates": true, "getCell": true,
 	"addVMLObject": true, "deleteFormControl": true, "ColumnNameToNumber": true, "ColumnNumberToName": true,
-	"setCellIntFunc": true, "setCellTimeFunc": true, "setCellValueFunc": true, "setCellString": true, "addComment": true, "getCellFormula": true, "parseColRange": true, "insertPageBreak": true, "setSheetCells": true,
+	"setCellIntFunc": true, "setCellTimeFunc": true, "setCellValueFunc": true, "setCellString": true, "addComment": true, "getCellFormula": true, "parseColRange": true, "insertPageBreak": true, "setSheetCells": true, "prepareConditionalFormatRange": true, "parseRef": true,
 }
 
 // receiver, function, expected skeleton (callees in source order, space separated), model path
@@ -117,6 +117,8 @@ var c20Expect = [][4]string{
 	{"xlsxWorksheet", "insertPageBreak", "CellNameToCoordinates", "RefOpts.optAccepts .pageBreak"},
 	{"File", "setSheetCells", "CellNameToCoordinates CoordinatesToCellName CoordinatesToCellName", "RefOpts.optAccepts .sheetRow2"},
 	{"File", "adjustRange", "rangeRefToCoordinates", "RefOpts.adjustRange"},
+	{"", "prepareConditionalFormatRange", "parseRef CoordinatesToCellName", "RefCF.cfPrepareAreas"},
+	{"", "parseRef", "CellNameToCoordinates ColumnNameToNumber", "RefCF.cfParseRef"},
 }
 
 // function, source pattern (regular expression over the whitespace-squashed source; identifiers
